@@ -83,7 +83,8 @@ def run(tier):
         'R10: mc64ad_ and everything it calls can write only num, cperm, iw, dw, info - never the caller\'s pattern or values (sound '
         'may-write set). In-place hazard: no loop of the MC64 kernels reads the shared work array q[] as a list (q[v], v its counter) while it also '
         'stores into q[] or hands it to the heap routines - heap, Q2 and an unread list share q[1..n] with nothing bounding their total. '
-        '?gsisx tests the return value (C15). R4 on the routines; R9 (c=z; s differs from d by the documented copy to '
+        'The match counter *num of mc64wd_ is advanced inside the augmenting loop only behind the false edge of `csp == rinf` (a failed search is never counted), '
+        'which is what makes *num < n the report of structural singularity. ?gsisx tests the return value (C15). R4 on the routines; R9 (c=z; s differs from d by the documented copy to '
         'double). Not decided: optimality of the matching, magnitude-one diagonal, bounds on the scaled entries (values).')
     cfgs = ['tested'] if tier == 'quick' else ['tested', 'idx64']
     chk.configs = cfgs
@@ -100,6 +101,7 @@ def run(tier):
         allowed = {'num': ['[]'], 'cperm': ['[]'], 'iw': ['[]'], 'dw': ['[]'], 'info': ['[]'], 'icntl': ['[]']}
         r10.maywrite(chk, 'C17.D3', prog, eff, 'mc64ad_', allowed, cfgname)
         inplace.run(chk, 'C17.inplace', prog, cfgname)
+        inplace.match_count_rule(chk, 'C17.count', prog, cfgname)
         fnames = {f.name for f in prog.all_funcs() if f.unit.endswith(('ldperm.c', 'mc64ad.c'))}
         c19.run_r4(chk, prog, cfgname, funcs=fnames, cid='C17.D4')
         if cfgname == 'tested':
